@@ -62,6 +62,7 @@ theorem build_nativeDtype (s : Spec) (hs : 0 < s.size)
   obtain ⟨k, n, o⟩ := s
   simp only at hs hf
   have h0 : 8 * n ≠ 0 := by omega
+  have h8 : ¬ (8 * n % 8 ≠ 0) := by omega
   cases k
   · -- signed
     cases v with
@@ -71,9 +72,9 @@ theorem build_nativeDtype (s : Spec) (hs : 0 < s.size)
         simp only [nativeDtype, if_true, build, h0, if_false, Struct.pack1]
         rw [int2bitstore_eq_to_bytes' 1 hs true i, packInt_one o true i]
       · cases o
-        · simp only [nativeDtype, h1, if_false, if_true, build, h0, Struct.pack1]
+        · simp only [nativeDtype, h1, if_false, if_true, build, h0, h8, Struct.pack1]
           rw [intle2bitstore_eq_to_bytes' n hs true i]
-        · simp only [nativeDtype, h1, if_false, build, h0, Struct.pack1, reduceCtorEq]
+        · simp only [nativeDtype, h1, if_false, build, h0, h8, Struct.pack1, reduceCtorEq]
           rw [int2bitstore_eq_to_bytes' n hs true i]
     | flt p => by_cases h1 : n = 1 <;> cases o <;> simp [nativeDtype, h1, build, Struct.pack1, Except.map, Except.toOption]
     | nan => by_cases h1 : n = 1 <;> cases o <;> simp [nativeDtype, h1, build, Struct.pack1, Except.map, Except.toOption]
@@ -85,9 +86,9 @@ theorem build_nativeDtype (s : Spec) (hs : 0 < s.size)
         simp only [nativeDtype, if_true, build, h0, if_false, Struct.pack1]
         rw [int2bitstore_eq_to_bytes' 1 hs false i, packInt_one o false i]
       · cases o
-        · simp only [nativeDtype, h1, if_false, if_true, build, h0, Struct.pack1]
+        · simp only [nativeDtype, h1, if_false, if_true, build, h0, h8, Struct.pack1]
           rw [intle2bitstore_eq_to_bytes' n hs false i]
-        · simp only [nativeDtype, h1, if_false, build, h0, Struct.pack1, reduceCtorEq]
+        · simp only [nativeDtype, h1, if_false, build, h0, h8, Struct.pack1, reduceCtorEq]
           rw [int2bitstore_eq_to_bytes' n hs false i]
     | flt p => by_cases h1 : n = 1 <;> cases o <;> simp [nativeDtype, h1, build, Struct.pack1, Except.map, Except.toOption]
     | nan => by_cases h1 : n = 1 <;> cases o <;> simp [nativeDtype, h1, build, Struct.pack1, Except.map, Except.toOption]
